@@ -32,6 +32,7 @@ impl Case {
             "signal": self.audio.recipe,
             "pcm_hash": format!("{:016x}", prng::hash_i32s(&self.audio.samples)),
             "block": self.block,
+            "config_block_size_field": self.cfg.block_size,
             "fill": format!("{:?}", self.mode),
             "len_hint": self.hint,
             "config": gen::describe_config(&self.cfg),
@@ -77,7 +78,9 @@ pub fn gen_case(rng: &mut Rng, lim: &Limits) -> Case {
     let rate = gen::pick_rate(rng);
     let audio = gen::gen_audio(rng, channels, bps, rate, len);
     let mut cfg = gen::gen_config(rng, &lim.opts);
-    cfg.block_size = block;
+    // the block-size ARGUMENT of the entry point is authoritative; in one case out of five the
+    // configuration's own `block_size` field holds a different (valid) value
+    cfg.block_size = if rng.chance(1, 5) { gen::pick_block_size(rng, 32767) } else { block };
     Case {
         audio: Arc::new(audio),
         cfg,
